@@ -594,6 +594,25 @@ Proof.
   - injection Hr as <-. cbn [panic_res s_nx s_st s_evs drops flat_map]. perm_count.
 Qed.
 
+Lemma offer_temp_own st nx v idx src k sidx r D L :
+  1 <= nx -> sp_offer_temp c st nx v idx src k sidx = Some r ->
+  Permutation (created c nx) (vis st ++ D ++ L) ->
+  Permutation (created c (s_nx r)) (vis (s_st r) ++ (D ++ drops (s_evs r)) ++ (L ++ [])).
+Proof.
+  intros Hnx Hr Hinv. unfold sp_offer_temp in Hr.
+  set (sidx' := match k with TPop => 0 | _ => sidx end) in *.
+  set (sk := match idx with None => KPush v | Some i => KIns v i end) in *.
+  destruct (sp_take c st nx src k sidx' sk) as [r0|] eqn:E0; [|discriminate]. injection Hr as <-.
+  assert (Hp : k = TPop -> sidx' = 0) by (intros ->; reflexivity).
+  pose proof (take_own st nx src k sidx' sk r0 D L Hp Hnx E0 Hinv) as H.
+  assert (Hl : match sk with KForget => match get_a src st with
+                 | Some a => skipn (match k with TPop => (length (a_xs a) - 1)%nat | _ => N.to_nat sidx' end) (a_xs a)
+                 | None => [] end | _ => [] end = []) by (unfold sk; destruct idx; reflexivity).
+  rewrite Hl in H.
+  destruct (N.eqb_spec (s_out r0) 1) as [Ho|Ho]; [|exact H].
+  cbn [panic_res s_nx s_st s_evs drops flat_map]. perm_count.
+Qed.
+
 Theorem step_own st nx o r D L :
   1 <= nx -> spec_step c st nx o = Some r ->
   Permutation (created c nx) (vis st ++ D ++ L) ->
@@ -617,6 +636,7 @@ Proof.
       * destruct a; [|discriminate]. exact (offer_wrong_own st nx v k r D L Hnx Hr Hinv).
       * assert (Hr' : sp_offer_lazy c st nx v None vid idx = Some r) by (destruct a; exact Hr).
         exact (offer_lazy_own st nx v None vid idx r D L Hnx Hr' Hinv).
+      * destruct a; [|discriminate]. exact (offer_temp_own st nx v None vid k idx r D L Hnx Hr Hinv).
   - (* OInsert *)
     cbn [leak_of]. destruct (fresh_src s).
     + pose proof (offer_own st nx v (Some idx) r D L Hnx Hr Hinv) as H. perm_count.
@@ -625,6 +645,7 @@ Proof.
       * destruct a; [|discriminate]. exact (offer_wrong_own st nx v k r D L Hnx Hr Hinv).
       * assert (Hr' : sp_offer_lazy c st nx v (Some idx) vid idx0 = Some r) by (destruct a; exact Hr).
         exact (offer_lazy_own st nx v (Some idx) vid idx0 r D L Hnx Hr' Hinv).
+      * destruct a; [|discriminate]. exact (offer_temp_own st nx v (Some idx) vid k idx0 r D L Hnx Hr Hinv).
   - (* OPop *)
     pose proof (take_own st nx v TPop 0 k r D L (fun _ => eq_refl) Hnx Hr Hinv) as H.
     cbn [leak_of]. destruct k; exact H.
